@@ -594,7 +594,11 @@ func c01RepoCommand(name string) (string, error) {
 		repo = "/repo"
 	}
 	out := filepath.Join(binDir(), "cmd01_"+name)
-	cmd := exec.Command("go", "build", "-o", out, "./cmd/obitools/"+name)
+	// (several harness processes of a thorough run build the same binary: each links into its own file, then renames it
+	// into place - a rename never meets a binary that is being executed)
+	tmpOut := fmt.Sprintf("%s.%d.tmp", out, os.Getpid())
+	defer os.Remove(tmpOut)
+	cmd := exec.Command("go", "build", "-o", tmpOut, "./cmd/obitools/"+name)
 	cmd.Dir = repo
 	env := []string{}
 	for _, e := range os.Environ() {
@@ -607,6 +611,8 @@ func c01RepoCommand(name string) (string, error) {
 	var err error
 	if b, e := cmd.CombinedOutput(); e != nil {
 		err = fmt.Errorf("go build %s: %v: %s", name, e, b)
+	} else if e := os.Rename(tmpOut, out); e != nil {
+		err = fmt.Errorf("rename %s: %v", tmpOut, e)
 	}
 	c01CmdPath[name], c01CmdErr[name] = out, err
 	return out, err
